@@ -143,7 +143,7 @@ def enumerate_run(tier, shard, nshards):
     from collections import Counter
 
     if tier != "thorough":
-        return dict(evaluations=0, distinct_nontrivial=0, classes={}, samples=[], failures=[], exhaustive=True,
+        return dict(evaluations=0, distinct_nontrivial=0, classes={}, samples=[], failures=[], exhaustive=False,
                     box="(thorough tier only) every interruption iteration k=1..n_conv-1 for one fixed instance per solver")
     problem = dict(kind="forest", params=dict(S=5, r1=6.0, r2=2.0, p=0.2))
     solvers = [dict(kind="vi", params=dict(epsilon=1e-3, gamma=0.9, max_batch_size=2, convergence_test="span")),
